@@ -156,6 +156,12 @@ func (rec *Record) TryCompress() {
 			// because oom, just not compress it
 			return
 		}
+		if len(compressed.Body) >= len(body) {
+			// the head compressed well, the whole value does not: keep it as it is (a compressed form
+			// larger than the value can exceed body_max, and such a record cannot be read back)
+			compressed.Free()
+			return
+		}
 	}
 	p.CArray.Free()
 	p.CArray = compressed
